@@ -131,7 +131,7 @@ def run(ctx):
         # factory closure: ChannelSlot::new(bound, id); register(slot.rx, Token(id as usize), readable, edge)
         reg = [e for e in events if e.kind == 'call' and e.callee == 'mio::Poll::register']
         SLOT_RX = 'io_loop::ChannelSlot::new(self.mio_channel_bound, $c0).0.rx'
-        r.check('factory:registers-under-token-id', len(reg) == 1 and S.show(reg[0].args[2]) == 'mio::Token(($c0 as usize))' and S.show(reg[0].args[1]) == SLOT_RX, site,
+        r.check('factory:registers-under-token-id', len(reg) == 1 and S.show(reg[0].args[2]) == 'mio::Token($c0)' and S.show(reg[0].args[1]) == SLOT_RX, site,
                 built=[[S.show(a) for a in e.args[1:3]] for e in reg], expected="register(&slot.rx, Token(new_channel_id as usize), ..) for the slot made for that id")
         mk = [e for e in events if e.kind == 'call' and e.callee == 'io_loop::ChannelSlot::new']
         r.check('factory:slot-for-that-id', mk and all(S.show(e.args[0]) == 'self.mio_channel_bound' and S.show(e.args[1]) == '$c0' for e in mk), site, built=[S.show(e.term) for e in mk])
